@@ -19,7 +19,12 @@ claim("C03",
       "trusted: CPython random module structure (draws via _randbelow), TLC; larger sequences rest on the symmetry argument (not decided by enumeration)",
       "TLA+ spec + TLC; exhaustive RNG decision-tree enumeration of the implementation judged by TLC", "DESIGN.md 4 C03")
 
+claim("C04",
+      "TLC model-checks the two conversions as maps on an abstract edge-list / network pair (every edge list with N<=3 and <=2..3 rows incl. self-loops, repeated pairs and untouched vertices; every order/orientation of the reverse conversion) and proves the node/edge/attribute/round-trip clauses on the model; the same enumerated family, thousands of random edge lists and real generator outputs with 30-60% zero-degree vertices are pushed through the real converters and every projection is judged by TLC",
+      "trusted: TLC, the projection of nx.Graph to node/edge/attribute lists; for repeated pairs only membership of the stored record among the occurrences is required (the statement constrains pairs occurring once)",
+      T_TLC, "DESIGN.md 4 C04")
+
 _pending = "no check built yet in this round; planned (DESIGN.md 4)"
-for p in ["C04","C05","C06","C07","C08","C09","C10","C11","C12","C13","C14","C15","C16","C17","C18"]:
+for p in ["C05","C06","C07","C08","C09","C10","C11","C12","C13","C14","C15","C16","C17","C18"]:
     NOT_APPLICABLE[p] = _pending
 NOT_APPLICABLE["C19"] = "numerical accuracy of four stateless real-valued functions (exp, zeta, polylog): no state, no transitions, TLC has neither reals nor transcendental functions (DESIGN.md 5)"
